@@ -1,5 +1,5 @@
 (** Comparators evaluated on the cases the harness produced for C14 (no proofs). *)
-From WM Require Import Base.Prelude Dedup.Model Dedup.Timed.
+From WM Require Import Base.Prelude Dedup.Model Dedup.Timed Dedup.Glue.
 From WM Require Export Dedup.Clients.
 Local Open Scope Z_scope.
 
@@ -246,32 +246,12 @@ Definition conc_replay (c : conc_case) : list nat :=
 (** the property on what the implementation did: the stamped events are accepted by the
     timed-set specification (20), and every message answered "new" reached the handler / the
     inner publisher while no duplicate did (21) *)
+(** the delivery rule: what the handlers / the inner publisher were given, in order, is what
+    [Clients.delivered] computes from the answers — the function C14_delivered_iff_new proves to
+    be, in every run of the model, exactly the thread's repository steps answered "new" *)
 Definition delivered_ok (fixed : bool) (ops : list opspec) (ans : list bool) (os : list obs) : bool :=
-  (fix go (ops : list opspec) (ans : list bool) (os : list obs) : bool :=
-     match ops, os with
-     | [], _ => true
-     | OpMW m it :: r, ObsMW h _ _ :: os' =>
-         match assign [(m, it)] ans false with
-         | Some ([(_, _, rr)], calls, rest) =>
-             (match calls with
-              | [] => nlist_eqb h []
-              | _ => nlist_eqb h (match rr with RNew => [m] | _ => [] end)
-              end) && go r rest os'
-         | _ => false
-         end
-     | OpDEC ms :: r, ObsDEC _ inner _ :: os' =>
-         match assign ms ans (fixed && has_err ms) with
-         | Some (a, calls, rest) =>
-             let asked_new := flat_map (fun x => match x with (m, IKey _, RNew) => if mem m (map fst calls) then [m] else [] | _ => [] end) a in
-             let asked_dup := flat_map (fun x => match x with (m, IKey _, RDup) => [m] | _ => [] end) a in
-             let got := concat inner in
-             forallb (fun m => mem m got) asked_new
-             && forallb (fun m => mem m asked_new) got
-             && go r rest os'
-         | None => false
-         end
-     | _, _ => false
-     end) ops ans os.
+  nlist_eqb (delivered fixed ops ans)
+            (flat_map (fun o => match o with ObsMW h _ _ => h | ObsDEC _ i _ => concat i end) os).
 
 (** slack of the freshness verdict on the implementation, in windows past the expiry
     (C14_timely_trace_fresh proves p + 3d for the timely model; the documentation says 1/2) *)
@@ -378,3 +358,17 @@ Definition conc_search (depth : nat) (c : conc_case) : nat * nat * list tid :=
        | Some l => l | None => [] end)
   | _ => (idx, O, [])
   end.
+
+(** * glue: the repository's deadline and the window validation
+
+    [tc_lo] = min over the repository calls of (deadline - clock read by the driver before the
+    call), [tc_hi] = max of (deadline - clock read inside the repository call): the deadline is
+    (some instant in between) + eff_timeout, so  tc_hi <= eff_timeout <= tc_lo. *)
+Record timeout_case := TC { tc_timeout : Z; tc_has_deadline : bool; tc_lo : Z; tc_hi : Z }.
+Definition timeout_mismatch (c : timeout_case) : bool :=
+  negb (tc_has_deadline c && (eff_timeout (tc_timeout c) <=? tc_lo c) && (tc_hi c <=? eff_timeout (tc_timeout c))).
+Definition timeout_mismatches (cs : list timeout_case) : list nat := positions (map timeout_mismatch cs).
+
+(** (window, NewMapExpiringKeyRepository returned an error) *)
+Definition window_mismatches (cs : list (Z * bool)) : list nat :=
+  positions (map (fun c => Bool.eqb (window_ok (fst c)) (snd c)) cs).
